@@ -787,6 +787,7 @@ def run(ck):
                             "'completed on a random subset of the hosts, caller gets the ON CLUSTER timeout'), then two undisturbed starts; "
                             "plus, per clustered configuration, one in three (thorough: every) script statements of a first start cut short on a random host subset, half of them again at the resume statement; "
                             "*/last-start-through-* = clustered configurations on 2-3 hosts in shards {0,1} {0,0,1} {0,1,1}, the last start connected to another replica of the shard / a host of another shard, after a clean or a once-interrupted initialisation; "
+                            "*/resumed-start-through-* (round 8) = the same layouts, start 1 through host 0 interrupted at a random call, the next start through the other host, the following through host 0 again (every other history: a second interruption); "
                             "thorough tier adds every call x {before, after} of a first start in the four main configurations. "
                             "concurrent/* = two maintenance.Update goroutines on one fake database under a generated schedule (stale reader / lockstep / bursts, "
                             "1 call in 400 failing), killed when the schedule ends, then two undisturbed solo starts. "
